@@ -209,6 +209,12 @@ static void check_post(int tok)
 
 		ref_lex_step(sc0, (const unsigned char *)orig, W, &r);
 		if (!r.grey) {
+			if (r.glued_comment) {
+				/* own assertion text: this case is a recorded finding, any other length mismatch is not */
+				V_ASSERT(consumed == r.consumed, "[C15] an unquoted word directly followed by a slash-star comment does not swallow the comment's slash");
+				if (consumed != r.consumed)
+					return;
+			}
 #ifdef CHK_C03
 			V_ASSERT(consumed == r.consumed, "[C03] the step consumes exactly the bytes of the lexical form");
 			V_ASSERT(tok == r.tok, "[C03] the step yields the token (or none) the form denotes");
